@@ -24,7 +24,7 @@ import outlib as L
 import vlib
 
 THEOREMS = ["C18_fold_one_to_one", "C18_fold_count", "C18_fold_kinds", "C18_fold_starts_at_first_token",
-            "C18_fold_wf", "C18_fold_laminar", "C18_fold_source_order", "C18_model_is_source", "C18_source_fold",
+            "C18_fold_wf", "C18_fold_laminar", "C18_fold_source_order", "C18_model_is_source", "C18_outline_model_is_source", "C18_source_fold",
             "C18_outline_file_list", "C18_outline_of_file", "C18_outline_entry", "C18_outline_children_order",
             "C18_outline_children_distinct", "C18_outline_registration_kept", "C18_outline_slice_total", "C18_outline_slice_replays", "C18_outline_slice_file_list",
             "C18_outline_source_subseq", "C18_outline_source_complete", "C18_outline_visit", "C18_outline_files_complete",
@@ -33,9 +33,9 @@ THEOREMS = ["C18_fold_one_to_one", "C18_fold_count", "C18_fold_kinds", "C18_fold
 TRUSTED = [
     "Coq 8.16.1 kernel; vm_compute only in the Examples; no axioms (Print Assumptions: closed under the global context)",
     "translator tools/translate/t_handlers.py (Rust subset reader + closed operation table): renders the CURRENT folding_range.rs exec and "
-    "utils.rs range_excluding_trivia as coq/gen/GenHandlers.v over coq/model/HandlerApi.v (rowan cursor API descendants / descendants_with_tokens / "
-    "into_token / kind / text_range and the iterator adaptors = the modelled vocabulary); C18_model_is_source proves the rendering equal to the hand "
-    "model Folding.v for all inputs",
+    "utils.rs range_excluding_trivia, document_symbol.rs exec / symbol_to_document_symbol as coq/gen/GenHandlers.v over coq/model/HandlerApi.v + HandlerSymApi.v (rowan cursor API descendants / descendants_with_tokens / "
+    "into_token / kind / text_range and the iterator adaptors = the modelled vocabulary); C18_model_is_source / C18_outline_model_is_source prove the rendering equal to the hand "
+    "models Folding.v / Outline.document_symbol for all inputs",
     "shared green-tree model coq/model/Tree.v (ranges derived from leaf byte lengths; descendants() = preorder nodes; "
     "descendants_with_tokens().filter_map(into_token) = leaf sequence) -- rowan cursor contracts, exercised by the correspondence run on real trees",
     "hand model coq/model/Folding.v of folding_range::exec and utils::range_excluding_trivia, tied to the code by the correspondence "
